@@ -344,3 +344,52 @@ Print Assumptions c03_par_first_lookup_miss_one_row_per_key.
 Print Assumptions c03_par_first_lookup_miss_values_lub.
 Print Assumptions c03_par_recheck_miss_one_row_per_key_refuted.
 Print Assumptions c03_par_first_lookup_miss_example.
+
+(* ---------------------------------------------------------------- lexicographic tuple lattices as lattice columns
+   (std tuples with Dual / Reverse / Option components at every position, a nested tuple, and Dual / Option / OrdLattice around a
+   tuple; LatEngine/LatVocabLex.v).  tuple.rs decides join_mut through Ord::cmp of the tuple - hence of every component type -
+   while the order of the property is PartialOrd.  In the engine model their join_mut is C16's mirror `jm (denote t)` on codes
+   (lat3_jm); it satisfies the lattice hypothesis of the theorems above for "both codes are in range and the decoded values are
+   elements of the shipped type with dec a <= dec b in the type's PartialOrd" *)
+From AV Require Import LatEngine.LatVocabLex.
+From AV Require Import LatEngine.LatVocabLexLaws.
+
+Theorem c03_lex_tuple_columns_are_lattices :
+  lat_laws (code_le (T := Z * Z) (ok_le (denote t_lexdu)) p2 RK2) (lat3_jm 20) /\
+  lat_laws (code_le (T := Z * Z) (ok_le (denote t_lexud)) p2 RK2) (lat3_jm 21) /\
+  lat_laws (code_le (T := Z * Z) (ok_le (denote t_lexdd)) p2 RK2) (lat3_jm 22) /\
+  lat_laws (code_le (T := Z * (Z * Z)) (ok_le (denote t_lexudu)) p3 RK3) (lat3_jm 23) /\
+  lat_laws (code_le (T := Z * (Z * Z)) (ok_le (denote t_lexdud)) p3 RK3) (lat3_jm 24) /\
+  lat_laws (code_le (T := Z * Z) (ok_le (denote t_lexru)) p2 RK2) (lat3_jm 25) /\
+  lat_laws (code_le (T := option Z * Z) (ok_le (denote t_lexod)) po2 RK2) (lat3_jm 26) /\
+  lat_laws (code_le (T := Z * Z) (ok_le (denote t_dlexuu)) p2 RK2) (lat3_jm 27) /\
+  lat_laws (code_le (T := option (Z * Z)) (ok_le (denote t_olexdu)) op2 RKO) (lat3_jm 28) /\
+  lat_laws (code_le (T := (Z * Z) * Z) (ok_le (denote t_lexnest)) n3 RK3) (lat3_jm 29) /\
+  lat_laws (code_le (T := Z * Z) (ok_le (denote t_ordlexdu)) p2 RK2) (lat3_jm 30).
+Proof.
+  exact (conj lexdu_codes_lattice (conj lexud_codes_lattice (conj lexdd_codes_lattice (conj lexudu_codes_lattice (conj lexdud_codes_lattice
+        (conj lexru_codes_lattice (conj lexod_codes_lattice (conj dlexuu_codes_lattice (conj olexdu_codes_lattice (conj lexnest_codes_lattice
+        ordlexdu_codes_lattice)))))))))).
+Qed.
+(* (Dual(5), 1) v (Dual(3), 0) = (Dual(3), 0): the lower cost wins whatever the tie-breaker; equal costs: the larger tie-breaker;
+   (u32, Dual<u32>): equal first components, the smaller second one is the higher value and stays; Option<(Dual<u32>, u32)>: None is
+   the bottom; Dual<(u32, u32)>: the lexicographically smaller pair wins *)
+Example c03_lex_join_examples :
+  lat3_jm 20 (5 * 1024 + 1) (3 * 1024 + 0) = (3 * 1024 + 0, true) /\ lat3_jm 20 (3 * 1024 + 1) (3 * 1024 + 7) = (3 * 1024 + 7, true) /\
+  lat3_jm 21 (3 * 1024 + 1) (3 * 1024 + 7) = (3 * 1024 + 1, false) /\ lat3_jm 28 0 5 = (5, true) /\
+  lat3_jm 27 (1 * 1024 + 3) (1 * 1024 + 2) = (1 * 1024 + 2, true).
+Proof. vm_compute. auto. Qed.
+(* what the above rests on, shown on a VARIANT of the model (not the shipped code): if Dual's Ord::cmp were the order of T instead of
+   its reverse - partial_cmp, the operators and Dual's own join / meet unchanged, so Dual<u32> columns behave as before - the tuple
+   (Dual<u32>, u32) is no lattice: join_mut of (Dual(5), 0) with the larger (Dual(3), 0) keeps (Dual(5), 0) and reports "unchanged" *)
+Theorem c03_tuple_column_over_unflipped_dual_cmp_refuted :
+  exists a b : carrier bad_lexdu,
+    wf bad_lexdu a /\ wf bad_lexdu b /\ le bad_lexdu a b /\
+    fst (jm bad_lexdu a b) = a /\ snd (jm bad_lexdu a b) = false /\ ~ le bad_lexdu b (fst (jm bad_lexdu a b)) /\
+    jv bad_lexdu a b = b /\
+    jm (DualLatCmpUnflipped (denote u32)) (fst a) (fst b) = (fst b, true).
+Proof. exact tuple_join_mut_needs_component_cmp_agreement_refuted. Qed.
+
+Print Assumptions c03_lex_tuple_columns_are_lattices.
+Print Assumptions c03_lex_join_examples.
+Print Assumptions c03_tuple_column_over_unflipped_dual_cmp_refuted.
